@@ -778,6 +778,52 @@ def rules(ck, P):
                          "silently truncates a tile while the index says it is complete; write_all is the accepted idiom", ir.loc(n))
         if not partial:
             ck.ok("R-WRITEALL", ap["q"], "%s::append writes the whole blob (no partial Write::write)" % short, ir.loc(ap))
+        # append writes its argument exactly once and returns (position before the write, length of the argument)
+        from . import mvt as _mvt
+        bp = [x for p_ in ap["params"] for x in ir.pat_binds(p_) if x["name"] != "self"]
+        bh = bp[0]["hid"] if bp else None
+
+        def writes_arg(y):
+            return y.get("k") == "mcall" and y.get("name") in ("write_all", "extend_from_slice", "extend", "write") and any(z.get("k") == "path" and z.get("r") == "local" and z.get("hid") == bh for z in ir.walk_nodes(y))
+        cnt = _mvt.exit_counts(P, ap, lambda y: 1 if writes_arg(y) else None)
+        oks = [y for y in ir.walk_nodes(ap["body"]) if y.get("k") == "call" and (y.get("q") or "").endswith("ByteRange::new") and len(y.get("a", ())) == 2]
+        okr = False
+        if len(oks) == 1:
+            lets_ = comp.lets_of(ap)
+            a0, a1 = oks[0]["a"]
+            pos_h = ir.local_hid(a0)
+            order = {id(y): i_ for i_, y in enumerate(ir.walk_nodes(ap["body"]))}
+            wr = [y for y in ir.walk_nodes(ap["body"]) if writes_arg(y)]
+            pos_let = [y for y in ir.walk_nodes(ap["body"]) if y.get("k") == "let" and y["pat"].get("k") == "bind" and y["pat"]["hid"] == pos_h]
+            before = bool(pos_let) and bool(wr) and order[id(pos_let[0])] < order[id(wr[0])] and ir.contains(pos_let[0].get("init") or {}, lambda z: z.get("k") == "mcall" and z.get("name") in ("stream_position", "position", "len", "seek"))
+            len_ok = ir.contains(a1, lambda z: z.get("k") == "mcall" and z.get("name") == "len" and ir.local_hid(z["recv"]) == bh)
+            if not len_ok:
+                # the count returned by the (total, in-memory) write of the argument
+                lh = next((z["hid"] for z in ir.walk_nodes(a1) if z.get("k") == "path" and z.get("r") == "local"), None)
+                len_ok = lh in lets_ and any(writes_arg(z) for z in ir.walk_nodes(lets_[lh]))
+            okr = before and len_ok
+        ck.check(cnt == {1} and okr, "R-WRITEALL", ap["q"] + "|once", "%s::append writes its argument once and returns (position before the write, argument length)" % short,
+                 "%s::append does not write its argument exactly once (%s) or does not return (start position, length)" % (short, sorted(cnt)), ir.loc(ap))
+        sp = P.impl_method(i, "set_position")
+        if sp is not None:
+            pp = [x for p_ in sp["params"] for x in ir.pat_binds(p_) if x["name"] != "self"]
+            sk = [y for y in ir.walk_nodes(sp["body"]) if y.get("k") == "mcall" and y.get("name") in ("seek", "set_position") and pp and
+                  any(z.get("k") == "path" and z.get("r") == "local" and z.get("hid") == pp[0]["hid"] for z in ir.walk_nodes(y))]
+            ck.check(len(sk) == 1, "R-WRITEALL", sp["q"], "%s::set_position moves the write position to its argument" % short, "%s::set_position does not seek to its argument" % short, ir.loc(sp))
+        ws = P.impl_method(i, "write_start")
+        if ws is not None:
+            names = [y["name"] for y in mvt_order(ws) if y.get("k") == "mcall" and y.get("name") in ("rewind", "seek", "write_all", "set_position", "stream_position", "position", "splice", "copy_from_slice")]
+            wcnt = _mvt.exit_counts(P, ws, lambda y: 1 if (y.get("k") == "mcall" and y.get("name") in ("write_all", "splice", "copy_from_slice", "write_all_at")) else None)
+            restore = ("seek" in names[names.index("write_all") + 1:] or "set_position" in names[names.index("write_all") + 1:]) if "write_all" in names else True
+            start = ("rewind" in names[:names.index("write_all")] or "seek" in names[:names.index("write_all")] or "set_position" in names[:names.index("write_all")]) if "write_all" in names else True
+            ck.check(wcnt == {1} and restore and start, "R-WRITEALL", ws["q"] + "|once", "%s::write_start writes its argument once at the start and restores the write position" % short,
+                     "%s::write_start does not write once at position 0 and restore the position (calls: %s)" % (short, names), ir.loc(ws))
+
+
+def mvt_order(b):
+    """call nodes of a body in evaluation order"""
+    from . import mvt
+    return list(mvt._eval_order(b["body"]))
 
 
 def _leaf_partition(ck, b):
